@@ -46,6 +46,13 @@ def gen(t):
     a('w_tri', 'bool& r, const %s& l, const %s& v0, const %s& v1, const %s& v2, %s& pt, %s& bary, bool& front' % (L, V, V, V, V, V), 'r = intersect(l, v0, v1, v2, pt, bary, front);')
     return tu
 
+def gen_planeM(t):
+    """plane * matrix with the three-point Plane3::set opaque: its arguments are the three transformed points"""
+    E = ELEM[t][0]
+    tu = TU('c15p_' + t, header=agg.HEADER + '#include <ImathPlane.h>\n', opaque=('EES5_S5_',))
+    tu.add('w_planeM', 'Plane3<%s>& o, const Plane3<%s>& pl, const Matrix44<%s>& m' % (E, E, E), 'o = pl * m;')
+    return tu
+
 class G:
     """geometry helpers over Rats in one Ctx"""
     def __init__(self, ctx, t):
@@ -83,10 +90,78 @@ def cases(outs, ctx):
         return c.op == 'fcmp' and c.attr in ('olt', 'ole')
     yield from PC.generic_cases(outs, ctx, enumerate_cond=enum, premise=premise, max_enum=10)
 
+def plane_times_matrix(rep, R, t):
+    """R15.plane: plane * M is built from three points X_i * M of the plane, wound so that for an affine M the signed
+    side of every point Y is kept up to the factor det(M) * K with K a sum of squares:
+        ((p2-p1) x (p3-p1)) . (Y*M - p1)  ==  det(L) * K * (n.Y - d),   K in {ny^2+nz^2, nx^2+nz^2, nx^2+ny^2}  (|n| = 1)"""
+    E, sz, lt = ELEM[t]
+    oid = 'plane*matrix<%s>' % E
+    S = R.get('w_planeM')
+    if S is None:
+        rep.ob(oid, 'R15.plane', UNDECIDED, R.err.get('w_planeM', 'not analysed')); return
+    where = fn_where(S.fn)
+    try:
+        o = S.out('a0', 0, sz, lt)
+        call = None; seen = set(); st = [o]
+        while st:
+            x = st.pop()
+            if x.id in seen: continue
+            seen.add(x.id)
+            if x.op == 'call' and 'Plane3' in str(x.attr) and str(x.attr).endswith('S5_S5_'): call = x; break
+            st.extend(x.args)
+        if call is None:
+            rep.ob(oid, 'R15.plane', UNDECIDED, 'the three-point Plane3::set call was not found in the result', where); return
+        # arguments: (this ptr, mem), (p1 ptr, mem), (p2 ptr, mem), (p3 ptr, mem)
+        mems = [a for a in call.args if a.ty == 'mem']
+        if len(mems) < 4:
+            rep.ob(oid, 'R15.plane', UNDECIDED, 'unexpected argument shape of Plane3::set (%d memory arguments)' % len(mems), where); return
+        def vec_of(mem):
+            cells = {}
+            if mem.op == 'mem':
+                a = mem.args[1:]
+                for i in range(0, len(a), 2): cells[T.const_value(a[i]) if a[i].op == 'const' else None] = a[i + 1]
+            return [cells.get(k * sz) for k in range(3)]
+        pts = [vec_of(m_) for m_ in mems[-3:]]
+        if any(v is None for p_ in pts for v in p_):
+            rep.ob(oid, 'R15.plane', UNDECIDED, 'the point arguments of Plane3::set are not fully initialised vectors', where); return
+        # affine M: last column (0,0,0,1)
+        zero = T.const_fp(lt, 0); one = T.fp_from_value(lt, 1)
+        aff = {agg.slot_in('a2', 4 * i + 3, t): (one if i == 3 else zero) for i in range(4)}
+        flat = [T.subst(v, aff) for p_ in pts for v in p_]
+        ncase = 0; bad = None
+        for asg, res in cases(flat, P.Ctx()):
+            ctx = P.Ctx(); g = G(ctx, t); g.unit('a1', 0); ncase += 1
+            p1, p2, p3 = [[ctx.rat(x) for x in res[3 * k: 3 * k + 3]] for k in range(3)]
+            n = g.vec('a1'); d = g.sc('a1', 3)
+            Mx = [[(P.patom(ctx.key(agg.slot_in('a2', 4 * i + j, t))), ONE) for j in range(3)] for i in range(4)]
+            Y = [(P.patom(ctx.key(T.arg(70 + i, lt))), ONE) for i in range(3)]
+            YM = [g.ctx.radd(g.ctx.radd(g.ctx.radd(ctx.rmul(Y[0], Mx[0][j]), ctx.rmul(Y[1], Mx[1][j])), ctx.rmul(Y[2], Mx[2][j])), Mx[3][j]) for j in range(3)]
+            cr = g.cross(g.sub(p2, p1), g.sub(p3, p1))
+            lhs = g.dot(cr, g.sub(YM, p1))
+            L = [[Mx[i][j] for j in range(3)] for i in range(3)]
+            det = ctx.radd(ctx.radd(ctx.rmul(L[0][0], ctx.radd(ctx.rmul(L[1][1], L[2][2]), (P.pneg(ctx.rmul(L[1][2], L[2][1])[0]), ONE))),
+                                    (P.pneg(ctx.rmul(L[0][1], ctx.radd(ctx.rmul(L[1][0], L[2][2]), (P.pneg(ctx.rmul(L[1][2], L[2][0])[0]), ONE)))[0]), ONE)),
+                           ctx.rmul(L[0][2], ctx.radd(ctx.rmul(L[1][0], L[2][1]), (P.pneg(ctx.rmul(L[1][1], L[2][0])[0]), ONE))))
+            side = ctx.radd(g.dot(n, Y), (P.pneg(d[0]), d[1]))
+            okK = False
+            for (i_, j_) in ((1, 2), (0, 2), (0, 1)):
+                K = ctx.radd(ctx.rmul(n[i_], n[i_]), ctx.rmul(n[j_], n[j_]))
+                if ctx.requal(lhs, ctx.rmul(ctx.rmul(det, K), side)): okK = True
+            if not okK:
+                neg = any(ctx.requal(lhs, (P.pneg(ctx.rmul(ctx.rmul(det, ctx.radd(ctx.rmul(n[i_], n[i_]), ctx.rmul(n[j_], n[j_]))), side)[0]), ONE)) for (i_, j_) in ((1, 2), (0, 2), (0, 1)))
+                bad = 'case %s: the three points handed to Plane3::set are wound so that the side of a point Y is %s' % (PC.show_asg(asg)[:160], 'REVERSED (normal and distance negated) for an orientation-preserving matrix' if neg else 'not det(M) * (sum of squares) * (n.Y - d)')
+                break
+        if ncase == 0: bad = 'no feasible case'
+        rep.ob(oid, 'R15.plane', VIOLATED if bad else HOLDS, bad or 'on all %d selections of the in-plane axes the result contains the transformed points and keeps the side of every point for det(M) > 0 (affine M)' % ncase, where)
+    except (P.NotPoly, PC.Undecided, vg.Unsupported, OverflowError) as e:
+        rep.ob(oid, 'R15.plane', UNDECIDED, str(e)[:300], where)
+
 def main(rep, ws, tier):
     types = 'f' if tier == 'quick' else 'fd'
-    tus = [gen(t) for t in types]
-    an = Analysed(ws, tus, rep)
+    tus = [gen(t) for t in types]; tup = [gen_planeM(t) for t in types]
+    an = Analysed(ws, tus + tup, rep)
+    for tp, t in zip(tup, types):
+        plane_times_matrix(rep, an[tp], t)
     for tu, t in zip(tus, types):
         R = an[tu]; E, sz, lt = ELEM[t]
         def outs_v(S, base, n=3, first=0): return [S.out(base, (first + i) * sz, sz, lt) for i in range(n)]
